@@ -21,7 +21,7 @@ import (
 
 // ---- fakes -----------------------------------------------------------
 
-var vhTokenTouched bool
+var vhTokenTouched, vhRegistered04 bool
 var vhTouchedKey string
 
 type vhToken struct{}
@@ -162,9 +162,12 @@ func VH_C04_SignAuthorization() {
 	conf := vhConfig(false)
 	user := &vhUser{roles: vhRoles("user-role")}
 	reqName := append(append([]string{}, vhNames...), "nope")[vhConcretize(vhInt("request", 0, len(vhNames)), 4)]
-	signers.Register(&signers.Signer{Name: "fake"})
+	if !vhRegistered04 {
+		vhRegistered04 = true
+		signers.Register(&signers.Signer{Name: "fake04"})
+	}
 	s := &Server{Config: conf, tokens: map[string]token.Token{"t0": vhToken{}}}
-	q := url.Values{"key": {reqName}, "filename": {"f.bin"}, "sigtype": {"fake"}}
+	q := url.Values{"key": {reqName}, "filename": {"f.bin"}, "sigtype": {"fake04"}}
 	req := &http.Request{Method: "POST", URL: &url.URL{Path: "/sign", RawQuery: q.Encode()}, RemoteAddr: "10.0.0.1:999"}
 	vhTokenTouched = false
 	rw, err := vhServe(user, s.serveSign, req)
